@@ -2,16 +2,25 @@ from propdefs.common import *
 
 PROP = {
     "bin": "c14",
-    "coq_targets": ["theories/Flow/C14Check"],
-    "n": {"quick": 400, "thorough": 12000},
-    "theorems": [],
+    "coq_targets": ["theories/Flow/C14Check", "theories/Flow/DCEProofs"],
+    "n": {"quick": 320, "thorough": 8000},
+    "theorems": ["dce_shape", "dce_equiv", "key_consistent_check"],
     "rule": "random IL functions as for C12 (loops, guarded edges, empty blocks, loads/stores, `x = x - 4`, `z = x + y`), "
             "intrinsics in 45% (undeclared, declared, multi-scalar, write-only, read-only, empty effects), indirect branches in 30%, "
             "blocks unreachable from the entry in ~13%; 4 initial states each, 60 execution steps; "
             "non-trivial = >= 4 locations and at least one operation replaced by nop; distinct by function text",
     "trusted_base": [KERNEL, HARNESS_TB, "the harness's comparison `output == input with nops at mask` (Rust derived ==) behind the compact ODiff encoding"],
-    "assumptions": [],
+    "assumptions": ["dce_equiv: functions satisfy C15's structural invariant cfg_inv and key_consistent (a read scalar and a written scalar "
+                    "with the same (name, ssa) key have the same width -- Exec/Sem.v's typing convention; false for ill-typed IL such as "
+                    "x:32 = <16-bit expr> followed by a read of x:16); dce_shape needs nothing",
+                    "'whenever a block without successors is reached' is read as 'when execution ends in one' (Sem's Exit)",
+                    "executing an intrinsic has no IL semantics: the comparison ends when one is reached (states compared there)"],
     "partial": [],
-    "level_text": "",
-    "level_note": "",
+    "level_text": "Unbounded Coq theorems: dce_shape (every function: only operations change, and only to nop) and dce_equiv (lock-step simulation "
+                  "for all fuels and all initial states: same path, same stores in the same order, equal whole scalar states at every indirect "
+                  "branch, at every intrinsic and at the end of every block without successors, as long as the input does not fault). The proof "
+                  "consumes C12's trace invariant and the repaired use-def relation. The Gallina transcription of dead_code_elimination is tied to "
+                  "the Rust code differentially in the kernel, and every observed output is re-run in lock step against its input in Exec/Sem.v.",
+    "level_note": "Trusted: Coq kernel + vm_compute; harness/pretty-printer incl. the ODiff encoding (Rust == on il::Function); the model is "
+                  "hand-written and tied differentially, not by translation.",
 }
